@@ -257,6 +257,14 @@ example : Intake.toEvent 3 [80, 87, 68, 13, 10] = .line 3 ['P', 'W', 'D', '\r', 
   have : Py.Utf8.decodeUtf8E [80, 87, 68, 13, 10] = .ok ['P', 'W', 'D', '\r', '\n'] := by decide
   simp [Intake.toEvent, classify, lineLimit, this]
 
+/-- whatever the peer does to the control connection while replies are queued (reset before the answer is out,
+    never reading), the session-ending wait in `response_queue.join()` ends once the reply writer is gone, so the
+    session's resources are released (`C12.join_cannot_hang`, all schedules) -/
+theorem vanished_peer_cannot_pin_the_session (evs : List Model.ReplyQueue.Ev)
+    (hd : (Model.ReplyQueue.run Model.ReplyQueue.facts Model.ReplyQueue.init evs).writerAlive = false) :
+    (Model.ReplyQueue.run Model.ReplyQueue.facts Model.ReplyQueue.init evs).joinReturns :=
+  (C12.join_cannot_hang evs).2 hd
+
 end Server
 
 end C19
